@@ -87,7 +87,107 @@ def resolver_named(name):
 def typed_dict(t, d):
     return [t, pairs(d)]
 
+def fs_roots():
+    import posixpath
+    from spil.sid.pathops.pathconfig import get_path_config
+    roots = []
+    for name in conf.path_configs.keys():
+        pc = get_path_config(name)
+        firsts = [t.split('(?P<')[0].split('{')[0] for t in pc.path_templates.values()]
+        r = posixpath.commonprefix(firsts)
+        roots.append(r[:r.rfind('/')] if not r.endswith('/') else r.rstrip('/'))
+    return roots
+
+def enc_fn(name):
+    if name == 'uri':
+        return lambda x: x.uri
+    if name == 'none':
+        return lambda x: None
+    return str
+
+def t_record(d):
+    return [[str(k), ([] if v is None else [v if isinstance(v, str) else repr(v)])] for k, v in d.items()]
+
+def do_fs(op, a):
+    import shutil, json as _json
+    from spil import WriteToPaths, GetFromPaths, GetFromAll, FindInPaths, FindInAll
+    if op == 'fs_reset':
+        for r in fs_roots():
+            if '/work/' not in r and '/tmp/' not in r:
+                raise RuntimeError('refusing to reset ' + r)
+            shutil.rmtree(r, ignore_errors=True)
+        return 'ok'
+    if op == 'fs_put':
+        p = Path(a[0])
+        if not any(str(p).startswith(r) for r in fs_roots()):
+            raise RuntimeError('outside roots ' + str(p))
+        kind = a[1]
+        if kind == 'dir':
+            p.mkdir(parents=True, exist_ok=True)
+        else:
+            p.parent.mkdir(parents=True, exist_ok=True)
+            if kind == 'empty':
+                p.write_text('')
+            elif kind == 'corrupt':
+                p.write_text('{"a": "b", ')
+            elif kind == 'json':
+                p.write_text(_json.dumps(OrderedDict((k, v) for k, v in a[2]), indent=4))
+        return 'ok'
+    if op == 'fs_dump':
+        res = []
+        for r in fs_roots():
+            for d, dirs, files in os.walk(r):
+                res.append([d, 'dir'])
+                for f in files:
+                    res.append([os.path.join(d, f), 'file'])
+        return sorted(res)
+    if op == 'sidecar':
+        return str(conf.get_data_json_path(Path(a[0])))
+    if op == 'w_create':
+        return out(lambda: t_bool(WriteToPaths(a[0] or None).create(a[1], data=OrderedDict((k, v) for k, v in a[2]) or None)))
+    if op == 'w_update':
+        return out(lambda: t_bool(WriteToPaths(a[0] or None).update(a[1], data=OrderedDict((k, v) for k, v in a[2]))))
+    if op == 'w_set':
+        return out(lambda: t_bool(WriteToPaths(a[0] or None).set(a[1], a[2], a[3])))
+    if op == 'get_data_paths':
+        return with_sid(a[1], lambda x: out(lambda: t_record(GetFromPaths(a[0] or None).get_data(x, attributes=list(a[2]) or None, sid_encode=enc_fn(a[3])))))
+    if op == 'get_paths':
+        return out(lambda: [t_record(r) for r in GetFromPaths(a[0] or None).get(a[1], attributes=list(a[2]) or None, sid_encode=enc_fn(a[3]))])
+    if op == 'get_all':
+        return out(lambda: [t_record(r) for r in GetFromAll().get(a[0], attributes=list(a[1]) or None, sid_encode=enc_fn(a[2]))])
+    if op == 'get_data_all':
+        return out(lambda: t_record(GetFromAll().get_data(a[0], attributes=list(a[1]) or None, sid_encode=enc_fn(a[2]))))
+    if op == 'find_paths':
+        return out(lambda: sorted(FindInPaths(a[0] or None).find(a[1], as_sid=False)))
+    if op == 'find_paths_raw':
+        return out(lambda: list(FindInPaths(a[0] or None).find(a[1], as_sid=False)))
+    if op == 'find_all':
+        return out(lambda: sorted(FindInAll().find(a[0], as_sid=False)))
+    if op == 'find_all_raw':
+        return out(lambda: list(FindInAll().find(a[0], as_sid=False)))
+    if op == 'sid_exists':
+        return with_sid(a[0], lambda x: out(lambda: t_bool(x.exists())))
+    if op == 'children':
+        return with_sid(a[0], lambda x: out(lambda: sorted(str(c) for c in x.children())))
+    if op == 'siblings':
+        return with_sid(a[0], lambda x: out(lambda: sorted(str(c) for c in x.siblings())))
+    if op == 'get_last':
+        return with_sid(a[0], lambda x: out(lambda: t_sid(x.get_last(a[1] or None))))
+    if op == 'get_next':
+        return with_sid(a[0], lambda x: out(lambda: t_sid(x.get_next(a[1]))))
+    if op == 'get_new':
+        return with_sid(a[0], lambda x: out(lambda: t_sid(x.get_new(a[1]))))
+    if op == 'get_attr':
+        def f(x):
+            v = x.get_attr(a[1])
+            return [] if v is None else [v if isinstance(v, str) else repr(v)]
+        return with_sid(a[0], lambda x: out(lambda: f(x)))
+    return None
+
 def do(op, a):
+    r = do_fs(op, a)
+    if r is not None:
+        return r
     if op == 'sid':
         return out(lambda: t_sid(mk_src(a[0])))
     if op == 'obs':
